@@ -482,12 +482,20 @@ def evolve(ch, spec, max_total=8, graph_edits=True):
     nedit = 1 + ch.choose('evo.nedit', 3)
     log = []
     for _ in range(nedit):
-        kinds = ['alg', 'sv', 'val', 'none']
+        kinds = ['alg', 'sv', 'val', 'none', 'revert']
         if graph_edits:
             kinds += ['add_input', 'del_input', 'add_alg']
         k = kinds[ch.choose('evo.kind', len(kinds))]
         a = algs[ch.choose('evo.alg', len(algs))]
-        if k == 'alg':
+        if k == 'revert':
+            # roll one algorithm back to a release it had before (its version and those of its state vectors and values)
+            hist = [h for h in getattr(spec, 'history', []) if a.full in h]
+            if hist:
+                old = AlgSpec.from_json(hist[ch.choose('evo.revert', len(hist))][a.full])
+                if (old.ver, old.svs) != (a.ver, a.svs) and [s[0] for s in old.svs] == [s[0] for s in a.svs]:
+                    a.ver, a.svs = old.ver, old.svs
+                    log.append(f'{a.full} rolled back to {a.ver}')
+        elif k == 'alg':
             a.ver = _bump(a.ver, ch, 'evo.bump')
             log.append(f'{a.full} -> {a.ver}')
         elif k == 'sv':
@@ -532,6 +540,7 @@ def evolve(ch, spec, max_total=8, graph_edits=True):
                 log.append(f'new algorithm {na.full}[{kind[0]}]({y.full}.{ysv[0]})')
     out = Spec(algs, new.events, new.base)
     out.change_log = log
+    out.history = list(getattr(spec, 'history', [])) + [{x.full: x.to_json() for x in spec.algs}]
     return out
 
 
